@@ -8,6 +8,10 @@
  *                               next() = xorshift64* of vcommon.h seeded with <seed>
  *   vals <n> <x1> ... <xn>      explicit accumulators (decimal int32)
  *   one <x>                     verbose: print the 16 stored values for x
+ *   prep <fmt> <f> <amp>        libxmp_mixer_softmixer on a voiceless context whose tick size computes to exactly f
+ *                               (freq = f, time_factor = 1, rrate = 1000, bpm = 1): exercises libxmp_mixer_get_ticksize's
+ *                               lower clamp / refusal, the guard of libxmp_mixer_prepare, the size cap and the format
+ *                               dispatch of the final stage; prints `prep <ticksize> <bytes> <fnv of the bytes>`
  *
  * output per rnd/vals block (compared textually with the driver):
  *   blk <n> <h0> ... <h15>      FNV-1a-64 of the bytes each combo wrote; combo index = amp*4 + bits8*2 + unsigned
@@ -125,6 +129,38 @@ static void flush_block(long n)
 	printf("\n");
 }
 
+static void prep_cmd(int fmt, int f, int amp)
+{
+	static struct context_data *pc;
+	struct mixer_data *s;
+	int size;
+
+	if (pc == NULL)
+		pc = (struct context_data *)xmp_create_context();
+	if (pc == NULL || libxmp_mixer_on(pc, 44100, fmt, 8363) < 0) {
+		printf("prep error\n");
+		return;
+	}
+	s = &pc->s;
+	s->freq = f;
+	s->amplify = amp;
+	pc->m.time_factor = 1.0;
+	pc->m.rrate = 1000.0;
+	pc->p.bpm = 1;
+	pc->p.virt.maxvoc = 0;
+	memset(s->buffer, 0x5a, XMP_MAX_FRAMESIZE * sizeof(int16));
+	libxmp_mixer_softmixer(pc);
+	size = s->ticksize * ((fmt & XMP_FORMAT_MONO) ? 1 : 2) * ((fmt & XMP_FORMAT_8BIT) ? 1 : 2);
+	if (size < 0 || size > XMP_MAX_FRAMESIZE * (int)sizeof(int16))
+		printf("prep %d %d outside-buffer\n", s->ticksize, size);
+	else
+		printf("prep %d %d %016llx\n", s->ticksize, size, (unsigned long long)fnv1a(FNV_INIT, s->buffer, size));
+	/* nothing may be written behind the reported size */
+	if (size >= 0 && size < XMP_MAX_FRAMESIZE * (int)sizeof(int16) && (unsigned char)s->buffer[size] != 0x5a)
+		ofail("overrun_frame", f, amp, size, fmt);
+	libxmp_mixer_off(pc);
+}
+
 int main(int argc, char **argv)
 {
 	static char line[1 << 20];
@@ -166,6 +202,10 @@ int main(int argc, char **argv)
 				done += m;
 			}
 			flush_block(n);
+		} else if (!strncmp(line, "prep ", 5)) {
+			int fmt, f, amp;
+			if (sscanf(line + 5, "%d %d %d", &fmt, &f, &amp) == 3 && amp >= 0 && amp <= 3)
+				prep_cmd(fmt & 7, f, amp);
 		} else if (!strncmp(line, "one ", 4)) {
 			int amp;
 			acc[0] = (int32)strtol(line + 4, NULL, 10);
